@@ -76,6 +76,34 @@ def gen_cases(rng, n_kernel, n_int, n_ref):
         cases.append(core.fcase("c16", [25, len(tr)] + [r for _, _, r in tr], fl(p, V, *[y for A, B, _ in tr for y in (A, B)])))
     return cases
 
+def edge_line_cases(rng, n_tri, n_ref):
+    """evaluation points on the lines carrying the edges (in-plane, off the triangle: inside the property's domain):
+    generic rounded triangles and dyadic ones, analyticS both constructors + green + solid angle / D3, the Ferguson fan
+    with x on the line of an edge of one of its triangles, and the reference quadrature on a subset"""
+    cases = []; refs = []
+    for i in range(n_tri):
+        dy = (i % 4 == 3)
+        t = g.dyadic_triangle(rng) if dy else g.triangle(rng)[:3]
+        for x, kind in g.edge_line_points(rng, t, dyadic=dy):
+            for k in range(3):
+                cases.append(core.fcase("c16", [2], fl(t[k], t[(k + 1) % 3], x)))
+            cases.append(core.fcase("c16", [3], fl(*t, x)))
+            cases.append(core.fcase("c16", [4], fl(*t, x)))
+            if kind == "line":
+                cases.append(core.fcase("c16", [1], fl(x, *t)))
+                cases.append(core.fcase("c16", [5], fl(*t, x)))
+                refs.append(core.fcase("c16", [20], fl(*t, x)))
+    for i in range(max(1, n_tri // 3)):
+        V, tr = g.fan(rng)
+        A, B, _ = tr[rng.randrange(len(tr))]
+        for x, kind in g.edge_line_points(rng, (V, A, B)):
+            if all(g.dist_point_triangle(x, (V, a, b)) >= 0.05 * g.tri_size((V, a, b)) for a, b, _ in tr):
+                cases.append(core.fcase("c16", [8, len(tr)] + [r for _, _, r in tr], fl(x, V, *[y for a, b, _ in tr for y in (a, b)])))
+                if kind == "line":
+                    refs.append(core.fcase("c16", [22, len(tr)] + [r for _, _, r in tr], fl(x, V, *[y for a, b, _ in tr for y in (a, b)])))
+    rng.shuffle(refs)
+    return cases + refs[:n_ref]
+
 def table_cases():
     cs = ["c16 10 %d |" % o for o in range(4)] + ["c16 12 %d |" % o for o in (0, 1, 2, 3, 4, 5, 100)]
     for o in (1, 2, 3):
@@ -104,6 +132,27 @@ def reference_case_for(line):
 # ------------------------------------------------------------------------------------------- evaluation
 def hexes(xs): return [float(x).hex() for x in xs]
 
+def _tri_point_ok(t, x):
+    size = g.tri_size(t); h = abs(g.dot(g.sub(x, t[0]), g.tri_normal(t)))
+    return (h <= 1e-13 * size or h >= 0.05 * size) and g.dist_point_triangle(x, t) >= 0.05 * size
+
+def in_domain(op, ints, fs):
+    """the property's quantifier: x at least 5 % of the triangle size off the plane, or in the plane (to rounding) and
+    at least 5 % away from the triangle"""
+    v = lambda k: tuple(fs[3 * k:3 * k + 3])
+    if op == 2: return offline_point(fs)
+    if op == 1: return _tri_point_ok((v(1), v(2), v(3)), v(0))
+    if op in (3, 4, 5, 20, 21): return _tri_point_ok((v(0), v(1), v(2)), v(3))
+    if op in (8, 22):
+        n = ints[1]; x = v(0); V = v(1)
+        return all(_tri_point_ok((V, v(2 + 2 * k), v(3 + 2 * k)), x) for k in range(n))
+    return True
+
+def offline_point(fs):
+    """op 2 (p0,p1,x): x is not on the segment [p0,p1] itself (there the integral diverges and anything goes)"""
+    p0, p1, x = tuple(fs[0:3]), tuple(fs[3:6]), tuple(fs[6:9])
+    return g.dist_point_segment(x, p0, p1) > 1e-9 * max(g.norm(g.sub(p1, p0)), 1e-300)
+
 def evaluate(ck, hb, cases, stats, search=True):
     """runs the case lines on model and implementation and applies, per operation, the comparison it calls for.
     Returns the list of (signature, description, replay) found."""
@@ -125,6 +174,17 @@ def evaluate(ck, hb, cases, stats, search=True):
         if iz is None or iz[0] != 0:
             st["mismatch"] += 1
             viol("%s: implementation crashed or threw" % OPN[op], "%s fails on case `%s`: %s" % (OPN[op], c[:300], i[:100])); continue
+        # ---- a non-finite value of a kernel on an input of the property's domain is a violation by itself
+        nf_out = if_[:1] if op in (2, 20) else (if_[:3] if op in (5, 6, 8, 21, 22, 24, 25) else if_) if op not in (10, 12) else []
+        if op in (1, 2, 3, 4, 5, 8, 9, 20, 21, 22) and any(v != v or abs(v) == float("inf") for v in nf_out) and not (op == 2 and "nonfinite_ok" in c):
+            st["nonfinite"] = st.get("nonfinite", 0) + 1
+            if in_domain(op, ints, fs):
+                viol("%s: non-finite result" % OPN[op], "%s returns %s on case `%s`" % (OPN[op], " ".join("%g" % v for v in nf_out), c[:300]))
+        # ---- replay of Example green_on_edge_line_dyadic_point on the real code: p0=(0,0,0) p1=(1,0,0) x=(-1,0,0) -> ln 2
+        if op == 2 and fs[:9] == [0.0, 0.0, 0.0, 1.0, 0.0, 0.0, -1.0, 0.0, 0.0]:
+            st["theorem_example_replayed"] = st.get("theorem_example_replayed", 0) + 1
+            if not (abs(if_[0] - math.log(2.0)) <= 1e-15):
+                viol("integral_simplified_green: dyadic point on the edge line", "integral_simplified_green for p0=(0,0,0) p1=(1,0,0) x=(-1,0,0) returns %r, the edge integral is ln 2 (theorem green_on_edge_line_value)" % if_[0])
         # ---- model vs implementation
         if op in model_ops:
             mz, mf = core.fparse(mo[c])
@@ -297,7 +357,7 @@ def main(replay=None):
         corpus = []
         cp = os.path.join(core.VERIF, "corpus", "C16.txt")
         if os.path.exists(cp): corpus = [l.strip() for l in open(cp) if l.strip() and not l.startswith("#")]
-        cases = corpus + table_cases() + (gen_cases(ck.rng, 250, 260, 40) if quick else gen_cases(ck.rng, 3000, 2500, 400))
+        cases = corpus + table_cases() + (gen_cases(ck.rng, 250, 260, 40) + edge_line_cases(ck.rng, 100, 150) if quick else gen_cases(ck.rng, 3000, 2500, 400) + edge_line_cases(ck.rng, 1500, 1500))
     found = evaluate(ck, hb, cases, stats)
     concrete = False
     # many monomials fail together when a table entry changes: report the first few per rule
@@ -340,7 +400,7 @@ def main(replay=None):
         ints, fs = core.fparse(c.split(None, 1)[1])
         return ints[0] not in (10, 12) and not (ints[0] == 11 and sum(ints[3:6]) == 0)
     ck.cov.update(evaluations=len(cases), distinct_nontrivial=len({c for c in cases if nontrivial(c)}),
-                  rule="distinct case lines, not counting the table/safe_order read-outs and the degree-0 monomial; random triangles (base 0.3..3, aspect ratio 1..20 log-uniform, acute and obtuse, any orientation, any vertex order), evaluation points >= 5 % of the triangle size off the plane / in-plane off the triangle / far / on the prolongation of an edge (log-argument fallback), dipoles off the surface, vertex fans of 3..7 triangles (open and closed, every stored rotation); integrands: polynomials up to the rule's degree, Dipole::potential, analyticS::f, analyticD3::f, analyticDipPotDer::f at orders 0..7 (safe_order), depths 0..10, tolerances {0,1e-4,1e-3,5e-3}; complete monomial sweep per rule",
+                  edge_line_cases="evaluation points exactly (to rounding) on the extension of each edge in both orientations, 0.05..3 edge lengths and mirror images, generic and dyadic triangles, plus points 1 ulp..1e-12 off the line; fans with x on an edge line", rule="distinct case lines, not counting the table/safe_order read-outs and the degree-0 monomial; random triangles (base 0.3..3, aspect ratio 1..20 log-uniform, acute and obtuse, any orientation, any vertex order), evaluation points >= 5 % of the triangle size off the plane / in-plane off the triangle / far / on the prolongation of an edge (log-argument fallback), dipoles off the surface, vertex fans of 3..7 triangles (open and closed, every stored rotation); integrands: polynomials up to the rule's degree, Dipole::potential, analyticS::f, analyticD3::f, analyticDipPotDer::f at orders 0..7 (safe_order), depths 0..10, tolerances {0,1e-4,1e-3,5e-3}; complete monomial sweep per rule",
                   samples=cases[len(cases) // 2:len(cases) // 2 + 3], op_distribution={k: s["cases"] for k, s in stats.items()},
                   correspondence=corr, bit_identical=bit, rounding_class_only=rnd, correspondence_mismatches=mis,
                   traces_validated_against_impl=nm,
